@@ -65,7 +65,9 @@ class Prop(PropBase):
             if rng.random() < 0.15:
                 vals = [abs(v) for v in vals] if rng.random() < 0.5 else [-abs(v) for v in vals]
             yield {"op": "shift", "cls": cls, "N": N, "dtype": dtype, "sshape": sshape, "shp": shp, "vals": vals,
-                   "crop": rng.random() < 0.5, "quantity": rng.random() < 0.2, "seed": rng.randrange(1 << 30),
+                   "crop": rng.random() < 0.5, "quantity": rng.random() < 0.3, "seed": rng.randrange(1 << 30),
+                   # sample rate and the unit a Quantity shift is written in: a few samples at 1 GHz are ~1e-9 in seconds
+                   "rate_hz": rng.choice([1e3, 1e3, 1e6, 1e9]), "qunit": rng.choice(["s", "ms", "us", "ns"]),
                    "t0": rng.choice(sigs.T0S + [None])}
 
     # ------------------------------------------------------------- real code
@@ -79,13 +81,13 @@ class Prop(PropBase):
         x = x.astype({"f4": "f4", "f8": "f8", "c8": "c8", "c16": "c16"}[case["dtype"]])
         kw = {"pol_type": "linear"} if case["cls"] == "DualPolarizationSignal" else {}
         nchan = case["sshape"][0] if case["cls"] != "Signal" else 1
-        return sigs.make(pb, case["cls"], case["N"], 1 * u.kHz, case["t0"], nchan=nchan, data=x, **kw)
+        return sigs.make(pb, case["cls"], case["N"], case.get("rate_hz", 1e3) * u.Hz, case["t0"], nchan=nchan, data=x, **kw)
 
     def _shift_arg(self, case, z):
         np, u = self.np, self.u
         arr = np.array(case["vals"], dtype=float).reshape(case["shp"]) if case["shp"] else float(case["vals"][0])
         if case["quantity"]:
-            q = (arr / z.sample_rate).to(u.ms)
+            q = (arr / z.sample_rate).to(getattr(u, case.get("qunit", "ms")))
             seen = np.asarray((q * z.sample_rate).to_value(u.one), dtype=float)
             return q, seen
         return arr, np.asarray(arr, dtype=float)
@@ -219,7 +221,7 @@ class Prop(PropBase):
             if not code["crop_rate_same"]:
                 return "crop changed sample_rate"
             if case["t0"] is not None:
-                es = F(start, 1000)
+                es = F(start) / F(case.get("rate_hz", 1e3))
                 if code["crop_start"] is None or not X.close(F(code["crop_start"]), es, atol=tol_time(2, es)):
                     return f"cropped start advanced by {code['crop_start']} s, expected {start} samples"
             elif code["crop_start"] is not None:
